@@ -4,21 +4,30 @@
 (* program making several calls; one event per call:                          *)
 (*   {"ev":"step","op":"call","sig":S,"args":[value ids],"called":true,       *)
 (*    "o":"ok"|"abort"|"panic"|"missing","got":name of the function that      *)
-(*    received the call,"recv":[Go values],"printed":text,"own":bool}          *)
-(* The same operators as MC_Native / Gen_Native decide (Native!Outcome).      *)
+(*    received the call,"recv":[Go values],"printed":text,"own":bool,          *)
+(*    "cf":the CONVFMT in force,"awk":[the text (arg "") of every argument as  *)
+(*    the program itself printed it],"shadow":name of the Funcs entry that an  *)
+(*    AWK function of the program shadows, or "none"}                          *)
+(* The same operators as MC_Native / Gen_Native decide (Native!OutcomeConv);  *)
+(* the table of a recorded run has other names than the model's, so of the    *)
+(* dispatch only "the function named in the program received the call, and it *)
+(* is not the shadowed one" is required.                                      *)
 EXTENDS Native, TraceBase
 
 VARIABLES l
 vars == <<l>>
 Init == l = 1
 
+Expect(ev) == OutcomeConv(ev.sig, ev.args, TRUE, ev.cf)
+\* the value a prediction stands for: AwkText is the text the program itself got from (arg "")
+Meant(pr, ev, j) == IF pr.val.k = "awk" THEN [k |-> "s", s |-> ev.awk[j]] ELSE pr.val
 Explains(ev) ==
-  LET ex == Outcome(ev.sig, ev.args, TRUE)
+  LET ex == Expect(ev)
   IN /\ ex.o = ev.o
-     /\ ev.got = ev.sig.name                         \* the function named in the program received the call
+     /\ ev.got = ev.sig.name /\ ev.got # ev.shadow   \* the function named in the program received the call
      /\ Len(ev.recv) = Len(ex.recv)
-     /\ \A j \in 1..Len(ex.recv) : ex.recv[j].ok => ev.recv[j] = ex.recv[j].val
-     /\ (ex.o = "ok" /\ ex.printed.ok) => ev.printed = ex.printed.val
+     /\ \A j \in 1..Len(ex.recv) : ex.recv[j].ok => ev.recv[j] = Meant(ex.recv[j], ev, j)
+     /\ (ex.o = "ok" /\ ex.printed.ok) => ev.printed = (IF "awk" \in DOMAIN ex.printed THEN ev.awk[1] ELSE ex.printed.val)
      /\ ex.o = "abort" => ev.own                     \* Execute returned exactly the function's error
 
 Show(ex) == IF ex.o \in {"ok", "abort"} THEN ex ELSE [o |-> ex.o]
@@ -26,10 +35,11 @@ Show(ex) == IF ex.o \in {"ok", "abort"} THEN ex ELSE [o |-> ex.o]
 TStep ==
   /\ l <= NLog /\ Log[l].ev = "step"
   /\ LET ev == Log[l]
-     IN /\ Assert(WellFormedSig(ev.sig) /\ \A j \in 1..Len(ev.args) : ev.args[j] \in Values,
+     IN /\ Assert(WellFormedSig(ev.sig) /\ (\A j \in 1..Len(ev.args) : ev.args[j] \in Values) /\ ev.cf \in ConvFmts
+                  /\ Len(ev.awk) = Len(ev.args),
                   <<"recorded call outside the specified domain", l>>)
         /\ IF Explains(ev) THEN l' = l + 1
-           ELSE Reject(l, [op |-> "call", expected |-> Show(Outcome(ev.sig, ev.args, TRUE))]) /\ l' = AfterNextReset(l)
+           ELSE Reject(l, [op |-> "call", expected |-> Show(Expect(ev))]) /\ l' = AfterNextReset(l)
 TReset == l <= NLog /\ Log[l].ev = "reset" /\ l' = l + 1
 TDone == l = NLog + 1 /\ PrintT("TRACE-END") /\ l' = l + 1
 Next == TStep \/ TReset \/ TDone
